@@ -244,10 +244,17 @@ impl<'a> ConnectTx<'a> {
     }
 
     fn payload_flags(&self) -> u8 {
+        // Will QoS and Will Retain MUST be 0 when there is no will.
+        let (will_retain, will_qos) = if self.will_flag() != 0 {
+            (self.will_retain as u8, self.will_qos as u8)
+        } else {
+            (0, 0)
+        };
+
         (self.username.as_ref().map(|_| 1).unwrap_or(0) << 7)
             | (self.password.as_ref().map(|_| 1).unwrap_or(0) << 6)
-            | ((self.will_retain as u8) << 5)
-            | ((self.will_qos as u8) << 3)
+            | (will_retain << 5)
+            | (will_qos << 3)
             | (self.will_flag() << 2)
             | ((self.clean_start as u8) << 1)
     }
